@@ -65,14 +65,14 @@ def make_datasets(chk, quick, root):
     rng = Rng(chk.seed, 1400)
     out = []
     ntest = 24 if quick else 160
-    nexc = 4 if quick else 20
+    nexc = 8 if quick else 40
     shapes = ["flat", "peaked", "steep", "phase", "zerotail", "holes"]
     for i in range(ntest + nexc):
         layout = "test" if i < ntest else "exceeds"
         base = os.path.join(root, "ds%03d" % i)
         n = [2, 3, 8, 96][i] if i < 4 else None
         t = gadata.synth(base, "Test", "g0", rng, n=n, shape=shapes[i % 6] if layout == "test" else rng.choice(["flat", "phase"]), layout=layout)
-        out.append((base, "Test", "g0", 1 if layout == "test" else 0, t))
+        out.append((base, "Test", "g0", 1, t))   # both layouts have a p.d.f. file (rejection method) and a c.d.f. file
     # the four real names through the generator-level layout
     for nuc in ("Se82", "Nd150"):
         base = os.path.join(root, "gen_" + nuc)
